@@ -163,12 +163,16 @@ def parse_assumptions(out: str):
         elif ln.startswith("Axioms:"):
             names = []
             i += 1
-            while i < len(lines) and (lines[i].startswith(" ") or lines[i].strip() == "" or re.match(r"^[A-Za-z_][\w.']*\s*:", lines[i])):
-                m = re.match(r"^([A-Za-z_][\w.']*)\s*:", lines[i])
-                if m:
-                    names.append(m.group(1))
-                if lines[i].startswith("Closed under") or lines[i].startswith("Axioms:"):
+            while i < len(lines):
+                cur = lines[i]
+                if cur.startswith("Closed under") or cur.startswith("Axioms:") or cur.startswith("COQC") or cur.startswith("make"):
                     break
+                if cur and not cur[0].isspace():
+                    m = re.match(r"^([A-Za-z_][\w.']*)", cur)
+                    if m:
+                        names.append(m.group(1))
+                    else:
+                        break
                 i += 1
             blocks.append(names)
             continue
